@@ -145,12 +145,16 @@ theorem rel_stackPeek (s s' : PState)
     (h : (run cfg (fuel+1) .stackPeek s).state? = some s') : Rel s s' := by
   rw [run] at h
   split at h
+  · simp [Out.state?] at h; subst h; exact Rel.refl _
+  split at h
   · simp at h
   · exact terminal_rel _ _ _ _ (posMatchString_good _ _ _) h
 
 theorem rel_stackPop (s s' : PState)
     (h : (run cfg (fuel+1) .stackPop s).state? = some s') : Rel s s' := by
   rw [run] at h
+  split at h
+  · simp [Out.state?] at h; subst h; exact Rel.refl _
   split at h
   · simp at h
   · simp at h
